@@ -13,6 +13,10 @@
 (*                     then terminates takes nothing with it: right before   *)
 (*                     the owner's termination its name still resolves and   *)
 (*                     its events are still taken                            *)
+(*   ClaimableOnNotice at the moment its termination has been announced to   *)
+(*                     links and monitors (the terminating goroutine is      *)
+(*                     parked right behind the exit / down signals) its name *)
+(*                     and its events can already be claimed by someone else *)
 (*   ReleasedName      a send to its name ends "unknown"                     *)
 (*   ReleasedEvents    its events can be registered again by someone else    *)
 (*   NoRelationOfDead  no relation mentions it, as requester or as target    *)
@@ -36,6 +40,7 @@ Judge(e) ==
   IF \E i \in 1..Len(e.mid) : (e.mid[i] = "ok") # (i \in held) THEN "AliasesIntact"
   ELSE IF \E i \in 1..Len(e.rival) : e.rival[i] # "taken" THEN "OwnerKeeps"
   ELSE IF e.midname \notin {"", "ok"} \/ \E i \in 1..Len(e.midev) : e.midev[i] # "taken" THEN "OwnerKeeps"
+  ELSE IF \E i \in 1..Len(e.notice) : e.notice[i] \notin {"ok", "nopark"} THEN "ClaimableOnNotice"
   ELSE IF \E i \in 1..Len(e.aliases) : e.aliases[i] # "unknown" THEN "ReleasedAliases"
   ELSE IF e.name \notin {"", "unknown"} THEN "ReleasedName"
   ELSE IF \E i \in 1..Len(e.events) : e.events[i] # "ok" THEN "ReleasedEvents"
